@@ -410,10 +410,11 @@ BNAdd(a, b) ==
     ELSE LET e == IF a.e < b.e THEN a.e ELSE b.e
              da == a.e - e
              db == b.e - e
-         IN  IF Len(a.m) = 1 /\ Len(b.m) = 1 /\ da <= 15 /\ db <= 15
+         IN  IF /\ Len(a.m) <= 2 /\ Len(b.m) <= 2
+                /\ BNnBitLen(a.m) + da <= 30 /\ BNnBitLen(b.m) + db <= 30
              THEN \* native fast path: both terms < 2^30
-                  LET x == a.m[1] * BNP2[da + 1]
-                      y == b.m[1] * BNP2[db + 1]
+                  LET x == BNnToInt(a.m) * BNP2[da + 1]
+                      y == BNnToInt(b.m) * BNP2[db + 1]
                   IN  BNFromIntExp((IF a.neg THEN -x ELSE x)
                                    + (IF b.neg THEN -y ELSE y), e)
              ELSE LET ma == BNnShl(a.m, da)
@@ -476,9 +477,17 @@ BNToInt(a) ==
     LET v == BNnToInt(a.m) * BNP2[a.e + 1]
     IN  IF a.neg THEN -v ELSE v
 
+\* a is an integer with |a| < 2^30 (then BNnToInt(a.m) * BNP2[a.e + 1] is
+\* its magnitude as a TLC integer)
+BNIsSmallInt(a) == a.e >= 0 /\ Len(a.m) <= 2 /\ BNnBitLen(a.m) + a.e <= 30
+
 \* truncated quotient of integer-valued a, b (b # 0)
 BNQuoTrunc(a, b) ==
     IF a.m = <<>> THEN BNZero
+    ELSE IF BNIsSmallInt(a) /\ BNIsSmallInt(b)
+    THEN LET q == (BNnToInt(a.m) * BNP2[a.e + 1])
+                  \div (BNnToInt(b.m) * BNP2[b.e + 1])
+         IN  BNFromIntExp(IF a.neg # b.neg THEN -q ELSE q, 0)
     ELSE IF BNMagCmp(a, b) < 0 THEN BNZero
     ELSE LET d == IF a.e < b.e THEN a.e ELSE b.e
              dm == BNnDivMod(BNnShl(a.m, a.e - d), BNnShl(b.m, b.e - d))
@@ -487,6 +496,10 @@ BNQuoTrunc(a, b) ==
 \* a - trunc(a/b)*b for any dyadic a, b (b # 0); sign of a
 BNFMod(a, b) ==
     IF a.m = <<>> THEN BNZero
+    ELSE IF BNIsSmallInt(a) /\ BNIsSmallInt(b)
+    THEN LET r == (BNnToInt(a.m) * BNP2[a.e + 1])
+                  % (BNnToInt(b.m) * BNP2[b.e + 1])
+         IN  BNFromIntExp(IF a.neg THEN -r ELSE r, 0)
     ELSE IF BNMagCmp(a, b) < 0 THEN a
     ELSE LET d == IF a.e < b.e THEN a.e ELSE b.e
              dm == BNnDivMod(BNnShl(a.m, a.e - d), BNnShl(b.m, b.e - d))
